@@ -1,23 +1,25 @@
 #!/bin/bash
-# mutant_lab.sh setup            : (re)create an isolated copy of /verif (/tmp/mverif) and a scratch worktree of /repo (/tmp/mrepo)
+# mutant_lab.sh setup            : (re)create an isolated copy of /verif ($MV) and a scratch worktree of /repo ($MR)
 # mutant_lab.sh try <PID> <patch>: apply the seeded change in the scratch worktree, run the copied check there, undo it
 # The registered checks themselves always run in /verif against /repo; the lab only exists so that seeded changes can
 # be evaluated without touching /repo while other work goes on.
 set -u
+L=${LAB:-}
+MV=/tmp/mverif$L; MR=/tmp/mrepo$L
 case "$1" in
 setup)
-  git -C /repo worktree remove --force /tmp/mrepo 2>/dev/null; git -C /repo worktree prune
-  git -C /repo worktree add --detach /tmp/mrepo HEAD >/dev/null
-  mkdir -p /tmp/mverif
-  rsync -a --delete --exclude .git --exclude work --exclude replays /verif/ /tmp/mverif/
-  for f in /tmp/mverif/harness*/Cargo.toml; do sed -i 's#"/repo#"/tmp/mrepo#g; s#/verif/harness#/tmp/mverif/harness#g' $f; done
-  echo "lab ready at $(git -C /tmp/mrepo rev-parse --short HEAD)"
+  git -C /repo worktree remove --force $MR 2>/dev/null; git -C /repo worktree prune
+  git -C /repo worktree add --detach $MR HEAD >/dev/null
+  mkdir -p $MV
+  rsync -a --delete --exclude .git --exclude work --exclude replays /verif/ $MV/
+  for f in $MV/harness*/Cargo.toml; do sed -i "s#\"/repo#\"$MR#g; s#/verif/harness#$MV/harness#g" $f; done
+  echo "lab ready at $(git -C $MR rev-parse --short HEAD)"
   ;;
 try)
   PID=$2; PATCH=$3
-  cd /tmp/mrepo && git checkout -q -- . && git clean -fdq && git apply $PATCH || { echo "RESULT $PID $PATCH patch-does-not-apply"; exit 2; }
-  cd /tmp/mverif && PASSAGE_REPO=/tmp/mrepo ./check $PID > /tmp/mlab_$PID.out 2>&1; RC=$?
-  cd /tmp/mrepo && git checkout -q -- . && git clean -fdq
-  echo "RESULT $PID $(basename $(dirname $PATCH)) exit=$RC violations=$(grep -c VIOLATION /tmp/mlab_$PID.out) :: $(grep VIOLATION /tmp/mlab_$PID.out | head -1) :: $(grep 'broken:' /tmp/mlab_$PID.out | head -2 | tr '\n' ' ' | cut -c1-200)"
+  cd $MR && git checkout -q -- . && git clean -fdq && git apply $PATCH || { echo "RESULT $PID $PATCH patch-does-not-apply"; exit 2; }
+  cd $MV && PASSAGE_REPO=$MR ./check $PID > /tmp/mlab${L}_$PID.out 2>&1; RC=$?
+  cd $MR && git checkout -q -- . && git clean -fdq
+  echo "RESULT $PID $(basename $(dirname $PATCH)) exit=$RC violations=$(grep -c VIOLATION /tmp/mlab${L}_$PID.out) :: $(grep VIOLATION /tmp/mlab${L}_$PID.out | head -1) :: $(grep 'broken:' /tmp/mlab${L}_$PID.out | head -2 | tr '\n' ' ' | cut -c1-200)"
   ;;
 esac
